@@ -1,3 +1,4 @@
 import ZeepProofs.C13
 import ZeepProofs.C14
 import ZeepProofs.C15
+import ZeepProofs.C10
